@@ -7,7 +7,7 @@ import operator
 import z3
 
 from . import ty as T
-from .core import PYOBJ, ContractMisfit, PyMerge, Unsupported, Val, coerce, fresh, join_types, lift, real_const
+from .core import PYOBJ, ContractMisfit, PyMerge, Unsupported, Val, coerce, fresh, join_types, lift, py_type_of, real_const
 
 _PYBIN = {
     ast.Add: operator.add,
